@@ -43,6 +43,20 @@ interest / reward amounts)
   `C08.guards_reject_new_positions`, `C08.guards_reject_borrow`, `C08.depreciation_rejects`, `C08.rejected_no_change`.
 * "withdrawing or closing a lend position never releases collateral pledged to an open borrow"
     → `C08.withdraw_never_releases_pledged`, `C08.closeLend_never_releases_pledged`.
+* (depth 2) "… collateral … that has NOT been handed over" over histories that go on after the hand-over — partial fills and the closing bid of the
+  second-generation auction (`bid`, `auctionClose`: x/auctionsV2 bid.go lend branch + `MsgCloseDutchAuctionForBorrow`), where the liquidated borrow
+  disappears and the lend position stays debited → the three identities above now range over such histories (`totalLend_eq`, `totalLend_eq_partial`,
+  `totalBorrowed_eq`, `totalStable_eq` — the op type has the new ops), `C08.auctionClose_books`, `C08.auctionBid_books`; the close of a cross-pool borrow
+  whose lend position was deleted at the hand-over can never succeed: `C08.auctionClose_needs_lend`, `C08.auctionClose_stuck_counterexample`.
+  (A borrow that comes BACK exists only in the first generation — `CreteNewBorrow` — which is not modelled.)
+* (depth 2) the state anchor `PoolAssetLBMapping.{LendIds, BorrowIds}`: every live lend / borrow is in exactly the list of its (pool, asset) / (out pool,
+  out asset), no dangling id, lists ascending so that the binary-search removal is exact → `C08.ids_consistent`, `C08.id_lists_ascending`,
+  `C08.delId_binary_search`, `C08.delId_needs_ascending`, `C08.lend_listed_exactly`, `C08.borrow_listed_exactly`, `C08.no_dangling_ids`.
+* (depth 2) reserve book-keeping records vs the reserve module balance → `C08.reserve_ledger` (all histories without block-hook runs),
+  `C08.reserve_halves_step`, `C08.reserve_halves_drift_counterexample`; the x/lend block hook breaks the ledger and kills itself:
+  `C08.reserve_ledger_poolsweep_counterexample`, `C08.beginBlock_dead_after_deletion`, `C08.beginBlock_keeps_pending` (finding D35).
+* (depth 2) the store migration 2 → 3 run in the middle of a history keeps all of the above → `C08.books_across_migration`,
+  `C08.reserve_ledger_across_migration`, `C08.migration_switches_off`; it leaks flags between records: `C08.migration_leak_counterexample` (finding D36).
 -/
 namespace Comdex.C08
 open Comdex Comdex.Lend
